@@ -43,7 +43,7 @@ def run(ctx):
                   "roots bit-identical at the end of the walk"]
     rules = RS.rule_table()
     walks = []
-    for t in start_trees(ctx, ctx.n(220, 3000)):
+    for t in start_trees(ctx, ctx.n(700, 6000)):
         root = P.build(t)
         walks.append(dict(start=t, cur=t, root=root, history=[(root, P.snapshot(root))], trace=[], alive=True))
     for step in range(steps):
